@@ -334,18 +334,3 @@ package cbreaker
 //@   modifies c.fallback
 //@   ensures rebound: c.fallback == f
 
-// ---- construction: a breaker is wired to its handler, its own metrics and the parsed condition (the zero value of the state
-// field is standby; that it is still zero after the parser and the metrics constructor ran is not proved: the engine does not
-// track which fresh objects arbitrary code can reach) --------------------------------------------------------
-// Options configure periods, side effects, the fallback and logging; they are assumed not to touch the state machine.
-// (recoveryDuration > 0 and non-nil next / fallback are configuration assumptions: nothing validates them.)
-//@ functype cbreaker.Option
-//@   params c
-//@   modifies c.checkPeriod, c.fallbackDuration, c.recoveryDuration, c.onTripped, c.onStandby, c.fallback, c.log, c.verbose
-
-//@ func New
-//@   props C05 C12 C18
-//@   modifies external
-//@   ensures wired: result1 == nil ==> result0 != nil && fresh(result0) && fresh(result0.m) && result0.next == next && result0.metrics != nil && result0.condition != nil
-//@   ensures default_periods_without_options: result1 == nil && len(options) == 0 ==> result0.checkPeriod == 100000000 && result0.fallbackDuration == 10000000000 && result0.recoveryDuration == 10000000000 && result0.fallback != nil
-//@   loop 1 invariant cb != nil && fresh(cb) && fresh(cb.m) && cb.next == next && (len(options) == 0 ==> cb.checkPeriod == 100000000 && cb.fallbackDuration == 10000000000 && cb.recoveryDuration == 10000000000 && cb.fallback != nil)
